@@ -33,6 +33,8 @@ type conf struct {
 	timeout int
 	downMs  int // how = "restart": the endpoint refuses connections for this long after the close
 	during  int // calls issued while the endpoint is down (their outcome is not judged)
+	respMs  int // the server answers every request this long after it arrived (0: at once)
+	graceMs int // how = "notify-close": the close follows the notification after this long (0: 1 ms)
 	idleMs  int // the server closes this long after its last response (0: 10 ms); 1000, 2000 coincide with the client sender's 1 s poll
 }
 
@@ -166,7 +168,16 @@ func acceptor(c conf, ln vnet.Listener, closed chan int64) {
 						return
 					}
 					vm.Log("server %s got id=%d payload=%x", conn.ID(), q.ID, q.Buffer)
-					conn.Write((&tnet.Response{Version: q.Version, ID: q.ID, Buffer: q.Buffer, Status: map[string]string{}}).Encode())
+					rsp := (&tnet.Response{Version: q.Version, ID: q.ID, Buffer: q.Buffer, Status: map[string]string{}}).Encode()
+					if c.respMs > 0 && served >= c.closeAt {
+						// (the calls before the close are answered at once, so that the close finds the client idle)
+						vm.GoNamed("srvreply", func() {
+							vm.Sleep(int64(c.respMs) * 1e6)
+							conn.Write(rsp)
+						})
+					} else {
+						conn.Write(rsp)
+					}
 					served++
 					if served == c.closeAt {
 						// let the client take the reply first: the close comes when the client is idle
@@ -178,7 +189,11 @@ func acceptor(c conf, ln vnet.Listener, closed chan int64) {
 						switch c.how {
 						case "notify-close":
 							conn.Write((&tnet.Response{Version: 1, ID: 0, ResultDesc: "_reconnect_", Status: map[string]string{}}).Encode())
-							vm.Sleep(int64(time.Millisecond))
+							if c.graceMs > 0 {
+								vm.Sleep(int64(c.graceMs) * 1e6)
+							} else {
+								vm.Sleep(int64(time.Millisecond))
+							}
 							conn.Close()
 						case "reset":
 							conn.Reset()
@@ -298,6 +313,11 @@ func main() {
 		for pol, pn := range []string{"oldest-first", "newest-first", "round-robin"} {
 			cc := c
 			cc.timeout = 3000
+			if c.respMs > 0 {
+				cc.name = fmt.Sprintf("slow-server resp=%dms grace=%dms closeAt=%d how=%s delta=%dms after=%d par=%d bound=%d prune=%v policy=%s", c.respMs, c.graceMs, c.closeAt, c.how, c.deltaMs, c.after, c.par, bound, prune, pn)
+				cases = append(cases, e1.Case{Sc: scenario(cc), Opt: vm.Options{Bound: bound, StrictDev: true, Prune: prune, Policy: pol}, Budget: budget, MinOutcomes: 1})
+				continue
+			}
 			if c.idleMs > 0 {
 				cc.name = fmt.Sprintf("idle-close at %dms closeAt=%d how=%s delta=%dms after=%d par=%d bound=%d prune=%v policy=%s", c.idleMs, c.closeAt, c.how, c.deltaMs, c.after, c.par, bound, prune, pn)
 				cases = append(cases, e1.Case{Sc: scenario(cc), Opt: vm.Options{Bound: bound, StrictDev: true, Prune: prune, Policy: pol}, Budget: budget, MinOutcomes: 1})
@@ -342,6 +362,18 @@ func main() {
 				}
 			}
 		}
+	}
+	// a server that takes 300 ms per request: calls are in flight at the instants of the client's own
+	// housekeeping after a close (grace-close poll 500 ms after a notification, sender poll every second)
+	for _, how := range []string{"notify-close", "close", "reset"} {
+		for _, d := range []int{150, 250, 350, 450, 750, 950} {
+			b := 0
+			if how == "notify-close" {
+				b = 1
+			}
+			add(conf{closeAt: 1, how: how, deltaMs: d, after: 2, par: 1, respMs: 300, graceMs: 100}, b, false)
+		}
+		add(conf{closeAt: 1, how: how, deltaMs: 350, after: 1, par: 2, respMs: 300, graceMs: 100}, 1, false)
 	}
 	// restart: the endpoint is unreachable for a while; calls made meanwhile may fail, calls after it must succeed
 	for _, during := range []int{0, 1, 2} {
